@@ -20,7 +20,7 @@ int    __real_fflush(FILE *);
 int    __real_fclose(FILE *);
 long   __real_ftell(FILE *);
 
-typedef struct { int stream; long off; long len; unsigned char *bytes; } wr_rec;
+typedef struct { int stream; long off; long len; unsigned char *bytes; char ctx[24]; } wr_rec;
 
 static int   wr_enabled = 0;      /* interposition active (only for files whose name contains wr_match) */
 static const char *wr_match = ".hdf";
@@ -83,6 +83,7 @@ size_t __wrap_fwrite(const void *p, size_t sz, size_t n, FILE *f)
         if (wr_nlog == wr_caplog) { wr_caplog = wr_caplog ? wr_caplog * 2 : 1024; wr_log = realloc(wr_log, sizeof(wr_rec) * (size_t)wr_caplog); }
         wr_rec *r = &wr_log[wr_nlog++];
         r->stream = s; r->off = off; r->len = (long)(sz * n); r->bytes = NULL;
+        { size_t i = 0; while (wr_ctx[i] && wr_ctx[i] != '(' && i < sizeof r->ctx - 1) { r->ctx[i] = wr_ctx[i]; i++; } r->ctx[i] = 0; }
         if (wr_keep_bytes && r->len > 0) { r->bytes = malloc((size_t)r->len); memcpy(r->bytes, p, (size_t)r->len); }
         wr_nwrites++;
     }
